@@ -343,7 +343,10 @@ package utils
 //@   option elemlinks
 //@   ensures nodup(names) && fresh(names) && modifiesNone(names)
 //@   ensures selector != nil ==> (forall i int :: 0 <= i && i < len(names) ==> (exists k int :: 0 <= k && k < len(selector.LabelMatchers) && selector.LabelMatchers[k].Name == names[i] && in2(matches, selector.LabelMatchers[k].Type)))
+//@   ensures selector != nil ==> (forall k int :: 0 <= k && k < len(selector.LabelMatchers) && selector.LabelMatchers[k].Name != "__name__" && in2(matches, selector.LabelMatchers[k].Type) ==> in(names, selector.LabelMatchers[k].Name))
 //@   loop 1 invariant nodup(names) && fresh(names) && modifiesNone(names) && selector == old(selector) && matches == old(matches)
+//@   loop 1 invariant 0 <= iter1 && iter1 <= len(selector.LabelMatchers)
+//@   loop 1 invariant forall k int :: 0 <= k && k < iter1 && selector.LabelMatchers[k].Name != "__name__" && in2(matches, selector.LabelMatchers[k].Type) ==> in(names, selector.LabelMatchers[k].Name)
 //@   loop 1 invariant forall i int :: 0 <= i && i < len(names) ==> (exists k int :: 0 <= k && k < len(selector.LabelMatchers) && selector.LabelMatchers[k].Name == names[i] && in2(matches, selector.LabelMatchers[k].Type))
 //@ spec func in2(ms []labels.MatchType, t labels.MatchType) bool = contains(ms, t)
 // The package variable guaranteedLabelsMatches is initialised to {MatchEqual, MatchRegexp} and never assigned (an
